@@ -29,22 +29,29 @@ def brute(case):
 
 
 def check_cycle(tag, r, start, loops, border, eid, bset):
-    """r = driver result of extract_border_cycle(start); start None = default."""
+    """r = driver result of extract_border_cycle(start); start None = default.
+    What the text fixes: a border start must be answered by a closed walk along border edges visiting every border
+    vertex of the loop of the start once.  Left free: how a start that is not a border vertex / a mesh without border
+    is treated (any refusal, whatever its class and message, or an empty answer, or a correct walk of some loop), at which
+    vertex of the loop and in which direction the walk begins, how the edge list is aligned with the vertex list."""
     out = []
-    if not bset:
-        if r[0] != "empty":
-            out.append(("cycle/no-border", "%s: mesh without border answered %s" % (tag, r[:2])))
-        return out
-    if start is not None and start not in bset:
-        if not (r[0] == "exc" and r[1] == "Exception" and "not on mesh border" in r[2]):
-            out.append(("cycle/not-on-border", "%s: start %s is not a border vertex, answered %s" % (tag, start, r[:3])))
-        return out
+    legit_refusal = (not bset) or (start is not None and start not in bset)
+    if legit_refusal:
+        if r[0] in ("exc", "empty"):
+            return out
+        if r[0] == "ok" and not r[1] and not r[2]:
+            return out
+        if r[0] != "ok" or not bset:
+            out.append(("cycle/not-on-border", "%s: start %s is not a border vertex, answered neither a refusal nor a border walk: %s"
+                        % (tag, start, r[:3])))
+            return out
+        start = None            # an answer was given although none was due: it must then be a correct walk of some loop
     if r[0] != "ok":
         out.append(("cycle/fails", "%s: border start %s answered %s" % (tag, start, r[:3])))
         return out
     vb, eb = r[1], r[2]
-    if not vb or (start is not None and vb[0] != start):
-        out.append(("cycle/start", "%s: walk %s does not begin at the start %s" % (tag, vb, start)))
+    if not vb or vb[0] not in bset or (start is not None and start not in vb):
+        out.append(("cycle/start", "%s: walk %s does not go through the start %s / a border vertex" % (tag, vb, start)))
         return out
     loop = [L for L in loops if vb[0] in L][0]
     if len(vb) != len(set(vb)):
@@ -55,15 +62,17 @@ def check_cycle(tag, r, start, loops, border, eid, bset):
     if len(eb) != n:
         out.append(("cycle/edges-len", "%s: %d vertices but %d edges" % (tag, n, len(eb))))
         return out
+    want = set()
     for i in range(n):
         a, b = vb[i], vb[(i + 1) % n]
         k = tuple(sorted((a, b)))
         if k not in border:
             out.append(("cycle/not-border-edge", "%s: step %s-%s of walk %s is not a border edge" % (tag, a, b, vb)))
-            break
-        if eb[i] != eid.get(k):
-            out.append(("cycle/edge-id", "%s: edge %d of the walk is reported as %s, edge %s has id %s" % (tag, i, eb[i], k, eid.get(k))))
-            break
+            return out
+        want.add(eid.get(k))
+    if len(set(eb)) != len(eb) or set(eb) != want:
+        out.append(("cycle/edge-id", "%s: the edges reported %s are not the border edges %s of the walk, each once"
+                    % (tag, eb, sorted(want))))
     return out
 
 
@@ -112,11 +121,9 @@ def check_border(case, obs):
         out.append(("boundary/map", "the returned map %s is not a bijection between the border vertices %s and 0..%d consistent with the coordinates" % (b["map"], sorted(bset), nb - 1)))
         return out
     want = sorted(tuple(sorted((s2p[a], s2p[c]))) for a, c in border)
-    got = sorted(tuple(e) for e in b["edges"])
+    got = sorted(tuple(sorted(e)) for e in b["edges"])
     if want != got:
         out.append(("boundary/edges", "polyline edges %s are not the border edges %s (through the map)" % (got[:12], want[:12])))
-    if any(e[0] > e[1] for e in b["edges"]):
-        out.append(("boundary/edge-key", "polyline edge not stored as a sorted pair"))
     # component attribute of the polyline vertices: constant exactly on the loops
     if b["comp_at"] is not None:
         lab = {}
@@ -127,8 +134,6 @@ def check_border(case, obs):
                 ok = False
             lab[k] = min(labs)
         if ok and len(set(lab.values())) != len(loops):
-            ok = False
-        if ok and sorted(lab.values()) != list(range(len(loops))):
             ok = False
         if not ok:
             out.append(("boundary/component", "attribute 'component' of the polyline vertices %s does not label the %d loops (map %s)"
@@ -241,65 +246,48 @@ def check_runs(case, t, opts, dets, cls, tags=None):
             out.append((cls + "features/edges", "%s flagged edges %s; the property demands %s (and allows %s more within round-off)"
                         % (tag, sorted(fe), sorted(must), sorted(may - must))))
             continue
-        if len(d["fe"]) != len(fe):
-            out.append((cls + "features/edges-dup", "%s: feature_edges has duplicates" % tag))
+        # containers are compared as what the text says they are: a set of edges, the set of their end vertices, a degree
+        # per vertex (0 where nothing is stored), the SET of local indices per feature vertex, a corner order per feature
+        # vertex.  Left free: container types, duplicates, iteration order, explicit zero / empty entries for other
+        # vertices, attributes / helper meshes (feature graph, corner point cloud) the detector builds besides.
         E = t["edges"]
         fv = sorted({v for e in fe for v in E[e]})
-        if d["fv"] != fv:
+        if sorted(set(d["fv"])) != fv:
             out.append((cls + "features/vertices", "%s: feature_vertices %s, endpoints of the feature edges are %s" % (tag, d["fv"], fv)))
-        deg = sorted([v, sum(1 for e in fe if v in E[e])] for v in fv)
-        if d["deg"] != deg:
-            out.append((cls + "features/degrees", "%s: feature_degrees %s, expected %s" % (tag, d["deg"], deg)))
-        loc = sorted([v, [i for i, e in enumerate(t["v2e"][v]) if e in fe]] for v in fv)
-        if d["local"] != loc:
-            out.append((cls + "features/local", "%s: local_feat_edges %s, expected %s" % (tag, d["local"], loc)))
-        for v, l in d["local"]:
-            if len(l) != dict(map(tuple, d["deg"])).get(v):
-                out.append((cls + "features/local-vs-degree", "%s: vertex %d has %d local feature edges but degree %s"
-                            % (tag, v, len(l), dict(map(tuple, d["deg"])).get(v))))
+        want_deg = {v: sum(1 for e in fe if v in E[e]) for v in fv}
+        got_deg = {k: v for k, v in d["deg"]}
+        bad = [v for v in set(want_deg) | set(got_deg) if got_deg.get(v, 0) != want_deg.get(v, 0)]
+        if bad:
+            out.append((cls + "features/degrees", "%s: feature_degrees %s, expected %s (differs at %s)"
+                        % (tag, d["deg"], sorted(want_deg.items()), sorted(bad)[:6])))
+        got_loc = {k: l for k, l in d["local"]}
+        for v in sorted(set(fv) | set(got_loc)):
+            want = [i for i, e in enumerate(t["v2e"][v]) if e in fe] if (v in fv and 0 <= v < len(t["v2e"])) else []
+            g = got_loc.get(v, [])
+            if sorted(g) != want:
+                out.append((cls + "features/local", "%s: local_feat_edges[%d] = %s, the feature edges sit at positions %s of vertex_to_edges"
+                            % (tag, v, g, want)))
                 break
-        if not opt["flag_corners"]:
-            if d["corners"] is not None:
-                out.append((cls + "features/corners-off", "%s: corners computed although flag_corners is off" % tag))
-        else:
-            if d["corners"] is None or sorted(k for k, _ in d["corners"]) != fv:
+
+        def corners_ok():
+            if sorted(k for k, _ in d["corners"]) != fv:
                 out.append((cls + "features/corners-domain", "%s: corners defined on %s, feature vertices are %s"
-                            % (tag, d["corners"] and [k for k, _ in d["corners"]], fv)))
-            else:
-                for v, c in d["corners"]:
-                    cand = corner_candidates(angle_sum(case, v), opt["corner_order"])
-                    if c not in cand:
-                        out.append((cls + "features/corner-value", "%s: corner of vertex %d is %d, angle sum %.6f allows %s"
-                                    % (tag, v, c, angle_sum(case, v), sorted(cand))))
-                        break
-        na = d.get("new_attrs")
-        if na is not None:
-            allowed = {"vertices": {"feature", "border"} | ({"corners"} if opt["flag_corners"] else set()),
-                       "edges": {"feature"}, "faces": set(), "corners": set()}
-            leaked = {k: sorted(set(v) - allowed[k]) for k, v in na.items() if set(v) - allowed[k]}
-            if leaked:
-                out.append((cls + "features/leaked-attributes", "%s left new attributes on the mesh: %s" % (tag, leaked)))
-        if opt["graph"] and "graph" in d:
-            g = d["graph"]
-            if "exc" in g:
-                out.append((cls + "features/graph", "%s: feature graph: %s" % (tag, g["exc"])))
-            else:
-                pos = {}
-                for i, p in enumerate(g["verts"]):
-                    pos.setdefault(tuple(p), []).append(i)
-                want = sorted(sorted((tuple(t["coords"][E[e][0]]), tuple(t["coords"][E[e][1]]))) for e in fe)
-                got = sorted(sorted((tuple(g["verts"][a]), tuple(g["verts"][b]))) for a, b in g["edges"])
-                if g["nv"] != len(fv) or want != got:
-                    out.append((cls + "features/graph", "%s: the feature graph is not the feature edge set" % tag))
-                else:
-                    dv = {}
-                    for e in fe:
-                        for v in E[e]:
-                            dv[tuple(t["coords"][v])] = dv.get(tuple(t["coords"][v]), 0) + 1
-                    gd = {tuple(p): g["deg"][i] for i, p in enumerate(g["verts"])}
-                    if gd != dv:
-                        out.append((cls + "features/graph-degree", "%s: 'degree' attribute of the feature graph %s, expected %s"
-                                    % (tag, sorted(gd.values()), sorted(dv.values()))))
+                            % (tag, [k for k, _ in d["corners"]], fv)))
+                return
+            for v, c in d["corners"]:
+                cand = corner_candidates(angle_sum(case, v), opt["corner_order"])
+                if c not in cand:
+                    out.append((cls + "features/corner-value", "%s: corner of vertex %d is %d, angle sum %.6f allows %s"
+                                % (tag, v, c, angle_sum(case, v), sorted(cand))))
+                    return
+        if not opt["flag_corners"]:
+            # nothing is due; if corner orders are exposed all the same they must be those of THIS edge set
+            if d["corners"] is not None:
+                corners_ok()
+        elif d["corners"] is None:
+            out.append((cls + "features/corners-domain", "%s: no corner orders although flag_corners is set" % tag))
+        else:
+            corners_ok()
     return out
 
 
